@@ -46,6 +46,8 @@ type c16env struct {
 	seq  int
 	log  []string
 	desc string
+	// rejSeq counts the dishonest Reject calls (every third one uses a receiver signature made for another purpose)
+	rejSeq int
 }
 
 func (e *c16env) logf(f string, a ...any) {
@@ -326,6 +328,18 @@ func (e *c16env) step() {
 		default:
 			req = svc.Sign(dishonest, t.hash[:])
 			req.Address = t.receiver.Addr // cross wired: receiver's address, stranger's signature
+		}
+		e.rejSeq++
+		if e.rejSeq%3 == 0 {
+			// a signature the receiver really made, for another purpose: over a message that begins with the contract's
+			// hash (its counter-signature of another transaction whose subject starts with those bytes), or over a
+			// truncated hash. It authorises nothing about this contract.
+			variant = 3 + (e.rejSeq/3)%2
+			if variant == 3 {
+				req = svc.Sign(t.receiver, append(append([]byte{}, t.hash[:]...), []byte(" and the rest of another message the receiver signed")...))
+			} else {
+				req = svc.Sign(t.receiver, t.hash[:31])
+			}
 		}
 		expectInvalid(fmt.Sprintf("Reject/variant%d", variant), func() error { _, err := e.rig.Notary.Reject(e.ctx, req); return err })
 	case kind == 9: // dishonest proposal: signature by another key, or content changed after signing
